@@ -1,0 +1,10 @@
+//go:build verif
+
+package priorityqueue
+
+import "github.com/emirpasic/gods/v2/trees/binaryheap"
+
+// VerifInner returns the wrapped binary heap.
+func (queue *Queue[T]) VerifInner() *binaryheap.Heap[T] {
+	return queue.heap
+}
